@@ -37,83 +37,192 @@ def build_response(b):
     import httpx
     raw = G.body_bytes(b["body"])
     headers = []
-    ct = G.CT_HEADER[b["ct"]]
+    ct = b["ctv"] if b.get("ctv") is not None else G.CT_HEADER[b["ct"]]
     if ct is not None:
         headers.append(("content-type", ct))
     if b.get("sess") is not None:
-        headers.append(("mcp-session-id", b["sess"]))
+        headers.append((b.get("hname") or "mcp-session-id", b["sess"]))
     return httpx.Response(b["status"], headers=headers, content=raw)
 
 
-def raise_exc(kind):
+def raise_exc(kind, msg=None):
     import httpx
     if kind == "connect":
-        raise httpx.ConnectError("All connection attempts failed")
+        raise httpx.ConnectError("All connection attempts failed" if msg is None else msg)
     if kind == "read_timeout":
-        raise httpx.ReadTimeout("timed out")
+        raise httpx.ReadTimeout("timed out" if msg is None else msg)
     if kind == "protocol":
-        raise httpx.RemoteProtocolError("Server disconnected without sending a response.")
+        raise httpx.RemoteProtocolError("Server disconnected without sending a response." if msg is None else msg)
     if kind == "asyncio_timeout":
-        raise asyncio.TimeoutError()
+        raise asyncio.TimeoutError() if msg is None else asyncio.TimeoutError(msg)
     raise ValueError(kind)
 
 
-def outgoing(req, fence=False):
-    """the object a caller puts on the write stream"""
+GARBAGE = ["not a message", 12345, ("tuple",), None]
+
+
+def outgoing(req, k, fence=False):
+    """the object a caller puts on the write stream; `params.k` tells the scripted server which
+    request it is answering (so behaviours follow requests, whatever the order of the POSTs)"""
     from chuk_mcp.protocol.messages.json_rpc_message import JSONRPCMessage
     if fence:
-        return JSONRPCMessage(jsonrpc="2.0", id=FENCE_ID, method="ping")
+        return JSONRPCMessage(jsonrpc="2.0", id=FENCE_ID, method="ping", params={"k": -1})
+    if req.get("garbage") is not None:
+        return GARBAGE[req["garbage"] % len(GARBAGE)]
     rid = G.idval(req["id"])
+    method = req.get("method") or ("tools/list" if req["id"] is not None else "notifications/initialized")
     if req.get("dict"):
-        d = {"jsonrpc": "2.0", "method": "tools/list" if req["id"] is not None else "notifications/initialized"}
+        d = {"jsonrpc": "2.0", "method": method, "params": {"k": k}}
         if req["id"] is not None:
             d["id"] = rid
         return d
     if req["id"] is None:
-        return JSONRPCMessage(jsonrpc="2.0", method="notifications/initialized")
-    return JSONRPCMessage(jsonrpc="2.0", id=rid, method="tools/list", params={"cursor": "c"})
+        return JSONRPCMessage(jsonrpc="2.0", method=method, params={"k": k})
+    return JSONRPCMessage(jsonrpc="2.0", id=rid, method=method, params={"cursor": "", "k": k})
 
 
 def fence_behaviour():
     return G.response_b(200, "json", {"form": "json", "msgs": [{"jsonrpc": "2.0", "id": FENCE_ID, "result": {"fence": True}}]})
 
 
-async def _drive(case, make_client_patch):
-    import anyio
-    from chuk_mcp.transports.http import http_client, StreamableHTTPParameters
+def send_order(case):
+    """indices of the requests that are POSTed, in the order they enter the write stream"""
+    idx = [k for k, r in enumerate(case["reqs"]) if r.get("garbage") is None]
+    return sorted(idx, key=lambda k: (case["reqs"][k].get("delay", 0), k))
 
-    script = [r["b"] for r in case["reqs"]] + [fence_behaviour()]
+
+def make_params(case):
+    from chuk_mcp.transports.http import StreamableHTTPParameters
+    cfg = case.get("cfg") or {}
+    kw = {}
+    if cfg.get("headers") is not None:
+        kw["headers"] = dict(cfg["headers"])
+    if cfg.get("bearer") is not None:
+        kw["bearer_token"] = cfg["bearer"]
+    if cfg.get("mcr") is not None:
+        kw["max_concurrent_requests"] = cfg["mcr"]
+    return StreamableHTTPParameters(url=URL, timeout=5.0, session_id=case.get("session0"), **kw)
+
+
+async def _one_round(case, params, make_client_patch):
+    import contextlib
+    import json
+    import anyio
+    from chuk_mcp.transports.http import http_client
+
+    @contextlib.asynccontextmanager
+    async def connect():
+        if case.get("direct"):
+            # the transport used directly (alternate API: get_streams / wait_for_response / stats)
+            T = _transport_module()
+            async with T.StreamableHTTPTransport(params) as t:
+                yield (await t.get_streams()), t
+        else:
+            async with http_client(params) as streams:
+                yield streams, None
+
+    loop = asyncio.get_running_loop()
+    reqs = case["reqs"]
     posts = []
-    state = {"k": 0}
+    seq = {"n": 0}
+
+    async def vsleep(ticks):
+        if ticks <= 0:
+            return
+        fut = loop.create_future()
+        loop.at(loop.ticks + ticks, lambda: fut.done() or fut.set_result(None))
+        await fut
 
     async def handler(request):
-        k = state["k"]
-        state["k"] += 1
-        posts.append({"sess": request.headers.get("mcp-session-id"), "method": request.method})
-        if k >= len(script):
-            import httpx
-            return httpx.Response(500, content=b"unscripted")
-        b = script[k]
-        if "exc" in b:
-            raise_exc(b["exc"])
-        return build_response(b)
+        import httpx
+        seq["n"] += 1
+        try:
+            k = json.loads(request.content)["params"]["k"]
+        except Exception:
+            k = None
+        rec = {"k": k, "sess": request.headers.get("mcp-session-id"), "a": seq["n"], "d": None}
+        posts.append(rec)
+        if k == -1:
+            b = fence_behaviour()
+        elif isinstance(k, int) and 0 <= k < len(reqs):
+            b = reqs[k]["b"]
+        else:
+            b = G.response_b(500, "other", {"form": "text", "text": "unscripted"})
+        try:
+            await vsleep(b.get("lat", 0))
+            if "exc" in b:
+                raise_exc(b["exc"], b.get("msg"))
+            return build_response(b)
+        finally:
+            seq["n"] += 1
+            rec["d"] = seq["n"]
 
     out = []
     fence = False
+    leave = case.get("leave_at")
     with make_client_patch(handler):
-        params = StreamableHTTPParameters(url=URL, timeout=5.0, session_id=case.get("session0"))
-        async with http_client(params) as (rd, wr):
-            for r in case["reqs"]:
-                await wr.send(outgoing(r))
-            await wr.send(outgoing(None, fence=True))
-            with anyio.move_on_after(600):
-                async for m in rd:
-                    c = canon_delivered(m)
-                    out.append(c)
-                    if c["id"] == {"s": FENCE_ID} and c["kind"] in ("result", "error"):
-                        fence = True
-                        break
-    return {"transcript": out, "hdrs": [p["sess"] for p in posts], "posts": len(posts), "fence": fence}
+        async with connect() as ((rd, wr), transport):
+            async def waiter(k):
+                # legacy API: a caller waiting on the transport's future for the same id; whatever it gets
+                # (a result, a timeout, a cancellation at exit) must not disturb the read stream
+                try:
+                    got = await transport.wait_for_response(str(G.idval(reqs[k]["id"])), timeout=reqs[k]["wait"] / vloop.TICKS_PER_S)
+                    if isinstance(got, dict):
+                        out.append(canon_delivered(got))
+                except (asyncio.TimeoutError, asyncio.CancelledError, TimeoutError):
+                    pass
+
+            async def send_one(k):
+                await vsleep(reqs[k].get("delay", 0))
+                if transport is not None and reqs[k].get("wait") and reqs[k].get("id") is not None:
+                    asyncio.ensure_future(waiter(k))
+                await wr.send(outgoing(reqs[k], k))
+
+            async def send_all():
+                async with anyio.create_task_group() as tg:
+                    for k in range(len(reqs)):
+                        tg.start_soon(send_one, k)
+                if leave is None:
+                    await wr.send(outgoing(None, -1, fence=True))
+
+            async with anyio.create_task_group() as tg:
+                tg.start_soon(send_all)
+                await vsleep(case.get("read_delay", 0))
+                with anyio.move_on_after(600 if leave is None else leave / vloop.TICKS_PER_S):
+                    async for m in rd:
+                        c = canon_delivered(m)
+                        out.append(c)
+                        if c["id"] == {"s": FENCE_ID} and c["kind"] in ("result", "error"):
+                            fence = True
+                            break
+                tg.cancel_scope.cancel()
+            if transport is not None:
+                stats = transport.get_connection_stats()
+                session_end = [transport.get_session_id(), stats.get("session_id")]
+    return {"transcript": out, "hdrs": [p["sess"] for p in posts], "order": [p["k"] for p in posts],
+            "events": [[p["k"], p["a"], p["d"]] for p in posts], "posts": len(posts), "fence": fence}
+
+
+async def _drive(case, make_client_patch):
+    import os
+    cfg = case.get("cfg") or {}
+    old = os.environ.get("MCP_BEARER_TOKEN")
+    if cfg.get("env_bearer") is not None:
+        os.environ["MCP_BEARER_TOKEN"] = cfg["env_bearer"]
+    else:
+        os.environ.pop("MCP_BEARER_TOKEN", None)
+    try:
+        params = make_params(case)
+        obs = await _one_round(case, params, make_client_patch)
+        if case.get("reuse"):
+            # the same parameters object used for a second connection
+            obs["round2"] = await _one_round(case, params, make_client_patch)
+        return obs
+    finally:
+        if old is None:
+            os.environ.pop("MCP_BEARER_TOKEN", None)
+        else:
+            os.environ["MCP_BEARER_TOKEN"] = old
 
 
 class _MockPatch:
@@ -155,7 +264,7 @@ class _MockPatch:
 
 def run_case(case):
     try:
-        return vloop.run(_drive, case, _MockPatch)
+        return vloop.run(_drive, case, _MockPatch, tie=case.get("tie", "events"))
     except BaseException as ex:  # the context manager itself failed
         if isinstance(ex, (KeyboardInterrupt, SystemExit)):
             raise
@@ -169,7 +278,9 @@ def run_cases(cases):
 # ----------------------------------------------------------------------------- model side
 
 def model_line(case):
-    reqs = [{"id": r["id"], "b": G.model_behaviour(r["b"])} for r in case["reqs"]]
+    if case.get("leave_at") is not None:
+        return None
+    reqs = [{"id": case["reqs"][k]["id"], "b": G.model_behaviour(case["reqs"][k]["b"])} for k in send_order(case)]
     reqs.append({"id": {"s": FENCE_ID}, "b": G.model_behaviour(fence_behaviour())})
     return {"m": "http", "op": "run", "session0": case.get("session0"), "reqs": reqs}
 
@@ -187,7 +298,7 @@ def comparable_impl(obs):
     """what is compared with the model: every delivered message that has an id or a method
     (id-less terminal/junk messages are not observables the property names), and the headers"""
     tr = [m for m in obs["transcript"] if m["id"] is not None or m["kind"] in ("request", "notification")]
-    return {"transcript": tr, "hdrs": obs["hdrs"], "fence": obs["fence"]}
+    return {"transcript": tr, "hdrs": obs["hdrs"], "fence": obs["fence"], "order": obs.get("order")}
 
 
 def comparable_model(out):
@@ -209,7 +320,7 @@ def determined_headers(case):
     has offered another one since; with the value the property demands"""
     out = {}
     last, clean = None, True
-    behaviours = [r["b"] for r in case["reqs"]] + [None]
+    behaviours = [case["reqs"][k]["b"] for k in send_order(case)] + [None]
     for k, b in enumerate(behaviours):
         if last is not None and clean:
             out[k] = last
@@ -222,6 +333,17 @@ def determined_headers(case):
     return out
 
 
+def _norm(v):
+    """numbers compare by value: 0.0 (Python) and 0 (the model's JSON number) are the same payload"""
+    if isinstance(v, float) and v.is_integer():
+        return int(v)
+    if isinstance(v, list):
+        return [_norm(x) for x in v]
+    if isinstance(v, dict):
+        return {k: _norm(x) for k, x in v.items()}
+    return v
+
+
 def same(case, impl, model):
     """position-wise: a passed-through message must be equal; a synthesised one must be a
     terminal (result or error, whatever its payload) with the same typed id; session headers
@@ -229,6 +351,8 @@ def same(case, impl, model):
     from .core import canon
     if impl["fence"] != model["fence"] or len(impl["hdrs"]) != len(model["hdrs"]):
         return False
+    if impl.get("order") is not None and impl["order"] != send_order(case) + [-1]:
+        return False  # POSTs leave in the order the messages entered the write stream
     for k in determined_headers(case):
         if k < len(impl["hdrs"]) and impl["hdrs"][k] != model["hdrs"][k]:
             return False
@@ -239,7 +363,7 @@ def same(case, impl, model):
         if "synth" in y:
             if not (x["kind"] in ("result", "error") and x["id"] == y["synth"]):
                 return False
-        elif canon(x) != canon(y):
+        elif canon(_norm(x)) != canon(_norm(y)):
             return False
     return True
 
@@ -313,9 +437,9 @@ async def _drive_socket(case):
     try:
         params = StreamableHTTPParameters(url=f"http://127.0.0.1:{port}/mcp", timeout=2.0, session_id=case.get("session0"))
         async with http_client(params) as (rd, wr):
-            for r in case["reqs"]:
-                await wr.send(outgoing(r))
-            await wr.send(outgoing(None, fence=True))
+            for k, r in enumerate(case["reqs"]):
+                await wr.send(outgoing(r, k))
+            await wr.send(outgoing(None, -1, fence=True))
             with anyio.move_on_after(8):
                 async for m in rd:
                     c = canon_delivered(m)
